@@ -377,6 +377,65 @@ class RiemannKernels(Obligation):
         cx.eq('closed-form fan velocity satisfies du/dp = 1/(rho a)', cx.d(lambda c: c['u_p'], 'px'), cx['dudp'])
 
 
+class DriverVsKernels(Obligation):
+    """the wave table the ideal-gas DRIVER builds (shock speeds, contact velocity) equals what the general-EOS kernels give
+    for the driver's own star state: the two Riemann routes place their shocks and contact by the same rule"""
+
+    def __init__(self, gl, gr, only):
+        self.gl, self.gr, self.only = gl, gr, only
+        self.id = 'C07.riemann.driver-kernels.%s.gl=%s.gr=%s' % (only, gl, gr)
+        self.modules = R.modules()
+        self.extra_shim = R.shim_extra()
+        u = H.mod(R.UM)
+        self.functions = [H.mod(R.RM).RiemannIGEOS.driver, u.shock_speed, u.star_velocity, u.shock_velocity]
+        self.bounds = 'left/right states symbolic; gamma pair fixed (unequal included); wave pattern %s' % only
+        self.max_paths = 200
+        self.timeout_s = 25
+        self.budget_s = 300
+        self.skip_validation = True
+
+    def build(self, mk):
+        out = R.run_driver(mk, self.gl, self.gr)
+        pat = out['pattern']
+        if Mode.symbolic(mk) and pat != self.only:
+            from symx.engine import PathAbort
+            raise PathAbort()
+        u, inst = H.mod(R.UM), out['inst']
+        d = R.flat(out)
+        if pat[0] == 'S':
+            d['gen_Vl'] = u.shock_speed(out['px'], out['rx1'], out['pl'], out['rl'], out['ul'], inst)
+            # star_velocity is called the way match_shocks calls it (arrays of star states): with scalars its inner
+            # shock_speed(..., u=0) takes the `left state' sign branch whenever ul happens to be exactly 0
+            d['gen_uxl'] = u.star_velocity(out['pl'], out['rl'], out['ul'], H.arr([out['px']]), H.arr([out['rx1']]), inst)[0]
+        if pat[2] == 'S':
+            d['gen_Vr'] = u.shock_speed(out['px'], out['rx2'], out['pr'], out['rr'], out['ur'], inst)
+            d['gen_uxr'] = u.star_velocity(out['pr'], out['rr'], out['ur'], H.arr([out['px']]), H.arr([out['rx2']]), inst)[0]
+        return d
+
+    def domain(self, V):
+        return R.domain(V)
+
+    def claims(self, cx):
+        pat = cx['_pattern']
+        if pat != self.only:
+            return
+        n = cx['nVregs']
+        px = cx['px']
+        if pat[0] == 'S':
+            w = (px > cx['pl']) if cx.symbolic else bool(px > cx['pl'])
+            cx.eq(pat + ': left shock speed of the wave table == general-EOS shock_speed at the star state', cx['Vregs0'], cx['gen_Vl'], when=w)
+            cx.eq(pat + ': contact velocity == general-EOS star_velocity across the left shock', cx['ux'], cx['gen_uxl'], when=w)
+        if pat[2] == 'S':
+            w = (px > cx['pr']) if cx.symbolic else bool(px > cx['pr'])
+            cx.eq(pat + ': right shock speed of the wave table == general-EOS shock_speed at the star state', cx['Vregs%d' % (n - 1)],
+                  cx['gen_Vr'], when=w)
+            cx.eq(pat + ': contact velocity == general-EOS star_velocity across the right shock', cx['ux'], cx['gen_uxr'], when=w)
+
+
 def riemann_kernel_obligations(tier):
     gams = H.G_QUICK if tier == 'quick' else H.G_FULL
-    return [RiemannKernels(g) for g in gams]
+    obs = [RiemannKernels(g) for g in gams]
+    for gl, gr in (R.GAMMA_PAIRS_QUICK[1:] if tier == 'quick' else R.GAMMA_PAIRS_FULL):
+        for pat in ('SCS', 'SCR', 'RCS'):
+            obs.append(DriverVsKernels(gl, gr, pat))
+    return obs
